@@ -151,10 +151,19 @@ func JudgeC15(c *Ctx, h *History, obs []*Obs) ([]Violation, error) {
 			c.Stats.Add("c15.skipped_ambiguous_or_defective", 1)
 			continue
 		}
+		if o.Exit != 0 && hasNulBody(o, effTags(g, h.World)) {
+			// known finding F20 (C16/C09): a stale output with NUL bytes blocks the go tool
+			c.Stats.Add("c15.skipped_blocked_by_stale_output_with_nul_bytes", 1)
+			continue
+		}
 		if o.Exit != 0 && g.FileAge != "fresh" && lacksPackageClause(o, effTags(g, h.World)) {
 			// known finding F9 (a stale output without package clause blocks the go tool):
 			// C16's and C09's subject, not a question of where output lands
 			c.Stats.Add("c15.skipped_blocked_by_stale_output_without_package_clause", 1)
+			continue
+		}
+		if o.Exit != 0 && spec.EqualNames && o.Exit == 1 && strings.TrimSpace(o.Stderr) != "" {
+			c.Stats.Add("c15.equal_names_refused", 1)
 			continue
 		}
 		if o.Exit != 0 {
@@ -176,7 +185,7 @@ func JudgeC15(c *Ctx, h *History, obs []*Obs) ([]Violation, error) {
 		}
 		for _, e := range mut {
 			if e.Op == "WriteFile" {
-				got[strings.TrimPrefix(e.Path, "@root/")] = true
+				got[path.Clean(strings.TrimPrefix(e.Path, "@root/"))] = true
 			}
 		}
 		var gotL, wantL []string
@@ -218,6 +227,17 @@ func JudgeC15(c *Ctx, h *History, obs []*Obs) ([]Violation, error) {
 		// (c) content: one package clause, equal to the model's; declarations present
 		for _, p := range wantL {
 			content := o.Outputs[p]
+			// known finding F11: with a symbolic link as -cwd an absolute output:file of this
+			// file is spelled through another path (the link target) than the working directory
+			// and the declaring files (the link): package identity and file identity are
+			// derived from the two spellings lexically
+			sfx := ""
+			for _, cv := range pred[p] {
+				if (g.Cwd == "symlink" || g.Cwd == "chdir-symlink" || g.Cwd == "symlink-rel") && strings.HasPrefix(cv.OutFile, RootPlaceholder) {
+					sfx = "/absolute-output-file-spelled-through-other-path-than-cwd"
+				}
+			}
+			add := func(class, msg string) { add(class+sfx, msg) }
 			if _, isInput := o.Inputs[p]; isInput {
 				add("overwrote-input", "output path "+p+" is an input file")
 				break
@@ -230,18 +250,16 @@ func JudgeC15(c *Ctx, h *History, obs []*Obs) ([]Violation, error) {
 			}
 			if f.Name.Name != pkgOf[p].PkgName {
 				cls := "package-clause"
-				for _, cv := range pred[p] {
-					if g.Cwd == "symlink" && strings.HasPrefix(cv.OutFile, RootPlaceholder) {
-						// known finding F11: the absolute output:file is spelled through another
-						// path (the link target) than the working directory (the link)
-						cls = "package-clause/absolute-output-file-spelled-through-other-path-than-cwd"
-					}
-				}
 				add(cls, fmt.Sprintf("%s has `package %s`, model (output:package / existing package / normalised directory) says `package %s`", p, f.Name.Name, pkgOf[p].PkgName))
 				break
 			}
 			if dup := duplicateDecl(f); dup != "" {
-				add("merged-file-not-well-formed", fmt.Sprintf("%s declares %s more than once (%d converters merged into it)", p, dup, len(pred[p])))
+				cls := "merged-file-not-well-formed"
+				if spec.EqualNames {
+					// known finding F19: equal declared names are neither merged nor refused
+					cls += "/equal-declared-names"
+				}
+				add(cls, fmt.Sprintf("%s declares %s more than once (%d converters merged into it)", p, dup, len(pred[p])))
 				break
 			}
 			for _, cv := range pred[p] {
@@ -447,7 +465,7 @@ func CheckC15(c *Ctx) (*Outcome, error) {
 		spec := covSpecs[i]
 		w := spec.World("c15cov")
 		var hs []*History
-		forms := []string{"", "abs", "rel", "abs-slash", "symlink", "sub:svc/conv"}
+		forms := []string{"", "abs", "rel", "abs-slash", "symlink", "sub:svc/conv", "chdir-symlink", "symlink-rel"}
 		if c.Tier != "thorough" {
 			forms = []string{forms[i%len(forms)], forms[(i+3)%len(forms)]}
 		}
